@@ -25,7 +25,7 @@
    * load() also *initialises* the chunk (inserts the empty array / zero); reading an
      uninitialised chunk through a default is extensionally the same, so load is pure. *)
 From Coq Require Import ZArith List Bool.
-From HV Require Import Spec.StorageSpec Gen.GenStoreConsts Gen.GenHashes Gen.GenStoreAxioms.
+From HV Require Import Spec.StorageSpec Gen.GenStoreConsts Gen.GenHashes Gen.GenPreRegistry Gen.GenStoreAxioms.
 Import ListNotations.
 Open Scope Z_scope.
 
@@ -66,11 +66,18 @@ Definition om_set (m : omap) (key : Z) (value : rentry) : option omap :=
       if rentry_eqb v0 value && (o0 =? om_set_offset key) then Some ((raw_key, raw_value) :: m) else None
   end.
 
-(* mk_precomputed_keccak_registry *)
+(* mk_precomputed_keccak_registry: which key, which hash symbol (preimage width) and which
+   preimage constant each table row is registered with is the code's own (Gen/GenPreRegistry.v,
+   regenerated from utils.py); con(n, size_bits) = BitVecVal(n, size_bits) reduces n modulo
+   2^size_bits *)
 Definition pre_entries : list rentry :=
-  map (fun p => {| r_hash := Z.of_N (fst p); r_bits := 256; r_pre := Z.of_N (snd p) |}) keccak256_256
-  ++ map (fun p => {| r_hash := Z.of_N (fst p); r_bits := 512;
-                      r_pre := Z.of_N (fst (snd p)) * W + Z.of_N (snd (snd p)) |}) keccak256_512.
+  map (fun p => let k := Z.of_N (fst p) in let v := Z.of_N (snd p) in
+                {| r_hash := pre256_key k v; r_bits := pre256_bits;
+                   r_pre := pre256_pre k v mod 2 ^ pre256_size |}) keccak256_256
+  ++ map (fun p => let k := Z.of_N (fst p) in
+                   let v1 := Z.of_N (fst (snd p)) in let v2 := Z.of_N (snd (snd p)) in
+                   {| r_hash := pre512_key k v1 v2; r_bits := pre512_bits;
+                      r_pre := pre512_pre k v1 v2 mod 2 ^ pre512_size |}) keccak256_512.
 
 Definition om_set_all (es : list rentry) (m0 : option omap) : option omap :=
   fold_left (fun m en => match m with Some m' => om_set m' (r_hash en) en | None => None end) es m0.
